@@ -43,7 +43,7 @@ class C02(Check):
         return 200.0 if tier == "quick" else 1800.0
 
     def arms(self, tier):
-        nfull = 16 if tier == "quick" else 320
+        nfull = 40 if tier == "quick" else 640
         arms = [("full", nfull * BLOCKS), ("w1", 194)]
         if tier == "thorough":
             arms.append(("w3probe", 64))
@@ -82,7 +82,9 @@ class C02(Check):
         if arm == "w1":
             v = self.structured(index)
             cls = "zero" if index == 0 else ("unit" if index <= 96 else ("ones" if index == 97 else "unit-complement"))
-            return {"message": v.to_bytes(12, "big").hex(), "mclass": cls, "range": [0, 197]}
+            # transmitted "in place": every pattern gets a freshly encoded codeword which the channel corrupts without copying it first
+            # (a transmitter that keeps hold of / re-uses what encode() returned is then exposed); the case is the whole pattern history
+            return {"message": v.to_bytes(12, "big").hex(), "mclass": cls, "inplace": True, "ops": [[]] + [[i] for i in range(196)] + [[]]}
         # informational: sampled weight-3 patterns
         w = streams["work"]
         v = w.getrandbits(96)
@@ -120,10 +122,11 @@ class C02(Check):
             pats = allp[case["range"][0]: case["range"][1]]
         informational = bool(case.get("informational"))
         fails = {}
-        for p in pats:
+        inplace = bool(case.get("inplace"))
+        for pi, p in enumerate(pats):
             res["evals"] += 1
             w = len(p)
-            rx = cw.copy()
+            rx = BPTC19696.encode(msg.copy()) if inplace else cw.copy()
             for i in p:
                 rx.invert(i)
             if w == 0:
@@ -190,8 +193,9 @@ class C02(Check):
             return
         fails[k] = (1, p)
         res.violate(oracle, site, detail)
-        res["viol"][-1]["case"] = {"property": "C02", "message": case["message"], "mclass": case.get("mclass"), "ops": [list(p)],
-                                   "arm": case.get("arm"), "run": case.get("run")}
+        if not case.get("inplace"):  # in-place arm: the whole pattern history is the case (minimised by ddmin)
+            res["viol"][-1]["case"] = {"property": "C02", "message": case["message"], "mclass": case.get("mclass"), "ops": [list(p)],
+                                       "arm": case.get("arm"), "run": case.get("run")}
 
 
 CHECKS = {"C02": C02()}
